@@ -244,6 +244,14 @@ func runC13(c *fw.Ctx) {
 		c.Count("values_beyond_64_bits", 1)
 		c.Distinct("long|" + text)
 	}
+	// ---- (a4) a percentage with more than a million decimals (literal and variable must agree) ----
+	if c.Want(64_000_000, "huge/1000001") {
+		text := "0." + strings.Repeat("0", 1000000) + "5%"
+		if !checkPortionText(c, text, true) {
+			return
+		}
+		c.Count("million_digit_texts", 1)
+	}
 	// ---- (b0) a value used in arithmetic keeps its meaning ----
 	n = c.N(6000, 200000)
 	for i := 0; i < n; i++ {
